@@ -75,6 +75,7 @@ inductive Instr where
   | nop (name : String)                               -- endbr32/64, bti, emms, vzeroupper
   | ret (n : Nat)                                     -- x86 `ret` / `ret n`
   | retReg (r : Nat)                                  -- AArch64 `ret x30`
+  | and3 (d r : Nat) (imm : Int)                      -- AArch64 `and d, r, #imm` (d may be sp)
   deriving DecidableEq, Repr, Inhabited
 
 /-! ### memory -/
@@ -175,6 +176,7 @@ def step (a : Arch) (i : Instr) (s : St) : Option St :=
     let ra := loadBytes s.mem (s.gp a.spId) W
     some { (s.setGp a.spId (s.gp a.spId + W + n)) with ret := some ra }
   | .retReg r => some { s with ret := some (s.gp r) }
+  | .and3 d r imm => some (s.setGp d (s.gp r &&& immBits W imm))
 
 def run (a : Arch) : List Instr → St → Option St
   | [], s => some s
@@ -224,6 +226,7 @@ def Instr.text (a : Arch) : Instr → String
   | .nop name => name
   | .ret n => if n = 0 then "ret" else "ret " ++ immText n
   | .retReg r => "ret " ++ regText 0 r a.W
+  | .and3 d r imm => "and " ++ regText 0 d a.W ++ "," ++ regText 0 r a.W ++ "," ++ immText imm
 
 def progText (a : Arch) (p : List Instr) : String :=
   if p.isEmpty then "-" else "; ".intercalate (p.map (Instr.text a))
